@@ -58,6 +58,27 @@ def run(res, tier, seed):
     res.extra['sizeclass_transcription_drift'] = drift
     if drift:
         print('SPEC-DRIFT property=C17 size-class transcription disagrees with the code on %d sizes (properties still hold)' % drift)
+    # ---- the orphaned-slab list: every edge of LifoList replayed on the real rml::internal::LifoList (top and lock flag compared per step)
+    os.makedirs(os.path.join(vlib.BUILD, 'graphs'), exist_ok=True)
+    for cfg, nb, prog in [('LifoList_A.cfg', 2, 'pop,push|grab,push'), ('LifoList_B.cfg', 2, 'pop,push|grab,push|pop')] + ([('LifoList_C.cfg', 3, 'pop,pop,push|grab,push,grab|pop,push')] if thorough else []):
+        tag = 'c17-' + cfg[:-4]; dot = os.path.join(vlib.BUILD, 'graphs', tag + '.dot')
+        r = vlib.tlc(SD, 'MClf', cfg, dump=dot, deadlock=False, timeout=3000, xmx='24g'); res.add_tlc(r, 'LifoList:' + cfg); vlib.tlc_must_hold(r, cfg)
+        if r.violation:
+            raise vlib.HarnessFailure('LifoList model violates %s' % r.violation)
+        nodes, edges, init = vlib.parse_dot(dot, ['top', 'lk'], raw=True); os.unlink(dot)
+        nodes = {k: '%s,%d' % (v.split('\x1f')[0].strip(), v.split('\x1f')[1].strip() == 'TRUE') for k, v in nodes.items()}
+        paths, cov, tot = vlib.edge_cover(nodes, edges, init)
+        sched = os.path.join(vlib.BUILD, 'graphs', tag + '.sched'); vlib.write_schedules(paths, sched)
+        sums, tfs = vlib.run_harness_parallel(lambda part, tf: [exe, 'lifo', part, tf, str(nb), prog], sched, tag, timeout=2500)
+        ssum = vlib.sum_dicts(sums); os.unlink(sched)
+        vlib.validate_and_report(res, SD, 'TraceLifo', 'TraceLifo.cfg', vlib.collect_traces(tfs), tag,
+                                 lambda tr: 'replay of LifoList on the real orphaned-slab list: a slab was handed to two owners, lost, or the list is corrupt at the end: ' + json.dumps([e for e in tr if not e['e'].startswith('#')])[:1200],
+                                 sig_fn=lambda tr: 'lifolist:' + ('stuck' if any(e['e'] == 'Stuck' for e in tr) else 'two-owners-or-lost'))
+        vlib.log('%s: %d states, %d/%d edges in %d schedules, %d real steps, drift %d, mismatch %d' % (tag, r.distinct, cov, tot, len(paths), ssum['steps'], ssum['drift'], ssum['state_mismatch']))
+        res.extra['spec_edges_replayed'] = res.extra.get('spec_edges_replayed', 0) + cov; res.extra['spec_edges_total'] = res.extra.get('spec_edges_total', 0) + tot
+        res.extra['drift_steps'] = res.extra.get('drift_steps', 0) + ssum['drift'] + ssum['state_mismatch']
+        if ssum['drift'] + ssum['state_mismatch']:
+            print('SPEC-DRIFT property=C17 orphan list replay: %d paths disagree with LifoList.tla' % (ssum['drift'] + ssum['state_mismatch']))
     # random API sequences on logical threads
     n = 30 if not thorough else 600
     jobs = [(1, 90), (2, 70), (3, 60), (3, 60), (4, 50), (4, 0), (4, 0), (4, 0)] + ([(2, 120), (4, 80), (4, 80), (4, 0)] if thorough else [])     # ops 0 = the orphaned-slab scenario
